@@ -53,7 +53,7 @@ mod annotation {
 
 // ---- the parser, reduced to what the two productions use
 #[derive(Clone, Copy)]
-enum TokenOp { Colon, Arrow, Comma, RightBrace, Other(u8) }
+enum TokenOp { Colon, Arrow, Comma, RightBrace, Semicolon, Other(u8) }
 #[derive(Clone, Copy)]
 enum Keyword { If, Other(u8) }
 #[derive(Clone, Copy)]
@@ -411,6 +411,25 @@ fn no_comment_reference() -> (r: CommentReference) { unimplemented!() }
         && exists|brace: Location| n.common.loc == #[trigger] joined(peeked_loc, brace),  // :match_expression_range_is_keyword_to_closing_brace
 //@before expr::E::Match(expr::Match {
       assert(exists|brace: Location| loc == #[trigger] joined(peeked_loc, brace));
+//@end
+
+// ---- an import line runs from the `import` keyword to its semicolon, or to the end of the module name when there is none
+//@extract crates/samlang-ast/src/source.rs :: struct ModuleMembersImport
+//@end
+
+//@extractblock crates/samlang-parser/src/source_parser.rs :: fn parse_module
+//@from let loc = if let Token(semicolon_loc, TokenContent::Operator(TokenOp::Semicolon)) = parser.peek() {
+//@to imported_module_loc, });
+//@wrap fn import_node(parser: &mut SourceParser, imports: &mut Vec<ModuleMembersImport>, import_start: Location, imported_module_loc: Location, mut associated_comments: Vec<Comment>, imported_members: Vec<Id>, imported_module: ModuleReference)
+//@contract
+    ensures
+      final(imports)@.len() == old(imports)@.len() + 1,
+      final(imports)@.subrange(0, old(imports)@.len() as int) == old(imports)@,
+      ({ let n = final(imports)@.last();
+         n.imported_module_loc == imported_module_loc && encloses(n.loc, import_start)
+         && (n.loc == joined(import_start, imported_module_loc) || exists|semicolon: Location| n.loc == #[trigger] joined(import_start, semicolon)) }),  // :import_range_runs_from_its_keyword_to_the_module_name_or_the_semicolon
+//@before imports.push(ModuleMembersImport {
+    assert(loc == joined(import_start, imported_module_loc) || exists|semicolon: Location| loc == #[trigger] joined(import_start, semicolon));
 //@end
 
 // =====================================================================================
